@@ -24,7 +24,8 @@ META = {
         ' Also: swapped / dropped option forwarding in the PLSSDesc wrappers, out-parameter dicts are told from None by identity, TRS equality / hashing (shared with C12), parallel clause purity of TRS.is_error.'
         " Round 7: no silent de-duplication on insert; unverified bulk copy only for the container's own class (any spelling of the extend); is_error / is_undef tables; TRS.__eq__ true only for a TRS."
         ' Round 8: __setitem__ stores a verified iterable only under a slice; unpack_group goes into nested dicts; a first-element type test does not decide a bulk extend.'
-        ' Round 10: a position (loop index) is never tested against a collection that only receives elements / keys, nor the reverse.'),
+        ' Round 10: a position (loop index) is never tested against a collection that only receives elements / keys, nor the reverse.'
+        ' Round 11: partial-error TRS strings keep their valid components in the case they reach the unpacker (shared with C12).'),
     'families': ['SINK', 'EXC', 'TBL', 'FORWARD', 'DEADPARAM', 'SIB-DEFAULTS'],
 }
 
@@ -46,6 +47,8 @@ def check(ctx):
     ctx.attempt(_unpack_group_recurses)
     ctx.attempt(common.first_element_speaks_for_all, [f for f in ctx.repo.funcs.values() if f.module.name.endswith('containers.containers')])
     ctx.attempt(common.membership_kind_mismatch, [f for f in ctx.repo.funcs.values() if f.module.name.endswith('containers.containers')])
+    from .c12 import unpacker_members      # filter_errors / group_by read the components of partial-error TRS strings
+    ctx.attempt(unpacker_members, rule_pos='TBL')
     ctx.attempt(common.no_dedup_on_insert, [f for f in ctx.repo.funcs.values() if f.module.name.endswith('containers.containers')])
     from .c12 import error_undef_tables      # filter_errors() relies on is_error / is_undef
     ctx.attempt(error_undef_tables)
@@ -362,6 +365,19 @@ def _selection(ctx):
                       f"`{norm(byvalue_any[0])}` removes the first *equal* element, not the selected one: with "
                       f"repeated / equal elements the wrong one is dropped and order changes",
                       key="SINK|_new_list_from_self|drop", where=common.loc(fi, byvalue_any[0]))
+    # ... or a rebuild of what stays behind by membership: `[e for e in self._elements if e not in dropped]`
+    for comp in walk_local(fi.node):
+        if isinstance(comp, (ast.ListComp, ast.GeneratorExp)) and len(comp.generators) == 1 and comp.generators[0].ifs:
+            g = comp.generators[0]
+            if isinstance(g.target, ast.Name) and any(
+                    isinstance(t, ast.Compare) and len(t.ops) == 1 and isinstance(t.ops[0], (ast.In, ast.NotIn))
+                    and isinstance(t.left, ast.Name) and t.left.id == g.target.id for t in g.ifs) \
+                    and ('self' in norm(g.iter)):
+                ctx.violation('SINK', '_new_list_from_self drops by index',
+                              f"`{norm(comp)[:70]}` keeps / drops elements by VALUE (equality, identity), not by the selected positions: "
+                              f"every element equal to a selected one goes too - filter_duplicates(drop=True) on ['a', 'a'] leaves "
+                              f"an empty list, a Tract that occurs twice disappears entirely",
+                              key="SINK|_new_list_from_self|drop-by-value", where=common.loc(fi, comp))
     pops = [c for c in walk_local(fi.node) if isinstance(c, ast.Call) and isinstance(c.func, ast.Attribute) and c.func.attr == 'pop']
     for c in pops:
         lp = next((p_ for p_ in _anc(c) if isinstance(p_, ast.For)), None)
